@@ -6,7 +6,6 @@ import (
 	"fmt"
 	"os"
 	"sort"
-	"strings"
 
 	"github.com/WuKongIM/WuKongIM/internal/verifh/vh"
 	metadb "github.com/WuKongIM/WuKongIM/pkg/db/meta"
@@ -305,13 +304,22 @@ func run(in input) vh.Result {
 		steps = append(steps, vh.Pair(vh.ListOf(op.B, func(c cmdJ) string { return c.coq() }), coqObs))
 		obs = append(obs, so)
 	}
-	var fl []string
-	for f := range flags {
-		fl = append(fl, f)
+	// class label for the evidence histogram: how deep the walk got + which interruptions were accepted
+	depth := "meta_only"
+	for _, d := range [][2]string{{"clear_fence_ok", "cleared"}, {"promote_ok", "promoted"}, {"commit_ok", "committed"},
+		{"set_fence_ok", "fenced"}, {"add_learner_ok", "learner"}, {"created", "created"}} {
+		if flags[d[0]] {
+			depth = d[1]
+			break
+		}
 	}
-	sort.Strings(fl)
-	class := strings.Join(fl, "+")
-	if class == "" {
+	class := depth
+	for _, f := range []string{"abort_ok", "reset_fence_ok", "commit_stale", "promote_stale"} {
+		if flags[f] {
+			class += "+" + f
+		}
+	}
+	if ncmds == 0 {
 		class = "empty"
 	}
 	w.done()
@@ -338,8 +346,10 @@ func classify(b []cmdJ, res batchResult, flags map[string]bool) {
 		switch res.Results[i] {
 		case 0:
 			switch c.K {
-			case "commit", "promote", "abort", "reset_fence", "clear_fence", "set_fence", "add_learner", "gc", "create_guarded":
+			case "commit", "promote", "abort", "reset_fence", "clear_fence", "set_fence", "add_learner", "gc":
 				flags[c.K+"_ok"] = true
+			case "create", "create_guarded":
+				flags["created"] = true
 			}
 		case 1:
 			switch c.K {
